@@ -8,10 +8,10 @@ pub fn prop() -> Prop {
     Prop {
         id: "C16",
         level: "fault_enumeration",
-        rule: "inputs: clean and noisy streams over a 7-value core (1..3 values, 4 separator kinds; thorough adds all pairs) plus three long ones (2500 rows, a 9000-character string, 700 noisy lines) faulted at the first and last 40 offsets and around 255, 256, 1 KiB, 4 KiB, 8 KiB, 16 KiB, 32 KiB, 64 KiB of the input and of the output; faults: the reader fails when asked for the byte at EVERY offset 0..=len (after 0,1,2 Interrupted results; for inputs of <=60 bytes also with 8 other io::ErrorKinds: BrokenPipe, ConnectionReset, ConnectionAborted, UnexpectedEof, TimedOut, WouldBlock, InvalidData, PermissionDenied), Interrupted at every offset without failure, stdout fails after accepting EVERY number of bytes 0..len(out) (plain, with 1- and 3-byte short writes, with Interrupted on every 2nd call), stderr likewise under --on-error=stderr, unopenable files in every position of a file list; x 4 policies x 11 pipelines (streaming, select, sort, group, --utf8-strings, text, csv, and four with --skip/--take: alone, pretty style, behind a sort, behind split and filter); inputs with \\uXXXX escapes in strings and member names; non-trivial = the fault offset falls strictly inside the input/output; distinct by construction",
+        rule: "inputs: clean and noisy streams over a 7-value core (1..3 values, 4 separator kinds; thorough adds all pairs) plus three long ones (2500 rows, a 9000-character string, 700 noisy lines) faulted at the first and last 40 offsets and around 255, 256, 1 KiB, 4 KiB, 8 KiB, 16 KiB, 32 KiB, 64 KiB of the input and of the output; faults: the reader fails when asked for the byte at EVERY offset 0..=len (after 0,1,2 Interrupted results; for inputs of <=60 bytes also with 8 other io::ErrorKinds: BrokenPipe, ConnectionReset, ConnectionAborted, UnexpectedEof, TimedOut, WouldBlock, InvalidData, PermissionDenied), Interrupted at every offset without failure, stdout fails after accepting EVERY number of bytes 0..len(out) (plain, with 1- and 3-byte short writes, with Interrupted on every 2nd call), stderr likewise under --on-error=stderr, unopenable files in every position of a file list; x 4 policies x 11 pipelines (streaming, select, sort, group, --utf8-strings, text, csv, and four with --skip/--take: alone, pretty style, behind a sort, behind split and filter); inputs with \\uXXXX escapes in strings and member names; non-trivial = the fault offset falls strictly inside the input/output; distinct by construction; a file that opens but whose first read fails (/proc/self/mem) in every position of a list of <=3 files",
         explanation: "every fault point of every history is enumerated on the real code with fault-injecting Read/Write implementations; oracle: Err (not Ok, not a panic), the reader is never asked again after its failure, stdout is a prefix of the fault-free stdout; a fault the fault-free run never reaches must change nothing",
         assumptions: COMMON_ASSUMPTIONS.to_vec(),
-        guards: vec!["other-error-kinds", "raw-utf8-row-longer-than-60-bytes", "fault-beyond-8192", "read-fault-inside-value", "read-fault-at-eof", "write-fault-inside-row", "interrupted-then-error", "short-writes", "stderr-write-fault", "missing-file"],
+        guards: vec!["file-whose-first-read-fails", "other-error-kinds", "raw-utf8-row-longer-than-60-bytes", "fault-beyond-8192", "read-fault-inside-value", "read-fault-at-eof", "write-fault-inside-row", "interrupted-then-error", "short-writes", "stderr-write-fault", "missing-file"],
         budget_s: (100, 1800),
         single_worker: false,
         run,
@@ -319,4 +319,50 @@ fn run(ctx: &mut Ctx) {
         }
     }
     ctx.level_done("unopenable-files");
+
+    // ---- a file that can be opened but whose very first read fails (/proc/self/mem: EIO at offset 0), in every
+    // position of a list of <= 3 files, under every policy and four pipelines
+    if ctx.mine() {
+        for policy in POLICIES {
+            for (pname, pargs) in [("stream", vec![]), ("select", vec!["--select=.=v"]), ("sort", vec!["--sort-by=."]), ("merge", vec!["--merge"])] {
+                for n in 1..=3usize {
+                    for bad in 0..n {
+                        let d = crate::drive::work_dir();
+                        let mut a = args(policy, &pargs);
+                        let mut expect_rows = String::new();
+                        for i in 0..n {
+                            if i == bad {
+                                a.push("/proc/self/mem".to_string());
+                            } else {
+                                let p = d.join(format!("r{i}.json"));
+                                std::fs::write(&p, format!("{}\n", i + 1)).unwrap();
+                                a.push(p.to_string_lossy().into_owned());
+                                if i < bad && pname == "stream" {
+                                    expect_rows.push_str(&format!("{}\n", i + 1));
+                                }
+                            }
+                        }
+                        let c = Case { args: a, input: Input::Stdin(b"9".to_vec()), rplan: ReadPlan::default(), wplan: WritePlan::default() };
+                        let o: Obs = ctx.run(&c);
+                        ctx.case_done();
+                        ctx.trace_validated();
+                        ctx.guard("file-whose-first-read-fails");
+                        ctx.nontrivial();
+                        let sig = format!("file whose first read fails at position {bad} of {n}, policy {policy} pipeline {pname}");
+                        if o.res.is_panic() {
+                            ctx.violation("read-fault-panic", &sig, &[c.clone()], "Err".into(), o.brief());
+                        } else if !o.res.is_err() {
+                            ctx.violation("read-fault-mistaken-for-eof-or-skipped", &sig, &[c.clone()], "Err (the run must stop and report)".into(), o.brief());
+                        } else if pname == "stream" && o.out_str() != expect_rows {
+                            ctx.violation("output-not-a-prefix", &sig, &[c.clone()], format!("{expect_rows:?}"), o.brief());
+                        }
+                        for i in 0..n {
+                            let _ = std::fs::remove_file(d.join(format!("r{i}.json")));
+                        }
+                    }
+                }
+            }
+        }
+    }
+    ctx.level_done("file-whose-first-read-fails");
 }
